@@ -460,10 +460,14 @@ def register_numpy():
             except (TypeError, UnicodeDecodeError):
                 return normalize_object(x)
         else:
+            # Hash the elements in logical (C) order, not in memory order:
+            # the token must depend on the values only, not on the layout
+            # (C/F order, strides, views), and equal buffers read in a
+            # different order must not collide.
             try:
-                data = hash_buffer_hex(x.ravel(order="K").view("i1"))
+                data = hash_buffer_hex(x.ravel(order="C").view("i1"))
             except (BufferError, AttributeError, ValueError):
-                data = hash_buffer_hex(x.copy().ravel(order="K").view("i1"))
+                data = hash_buffer_hex(x.copy().ravel(order="C").view("i1"))
         return (data, x.dtype, x.shape)
 
     @normalize_token.register(np.memmap)
